@@ -1,28 +1,49 @@
 """
-C18 tables (DESIGN.md 3.1), read off the working tree with `ast`/text only:
+C18 tables (DESIGN.md 3.1). They are read by MEANING, not by the shape of the source: `extract/probe_c18.py` imports the
+package of the working tree in a separate interpreter, runs `Shelxfile.read_string()`, `SymmetryElement.to_cif()` and
+`Shelxfile.to_cif()` on a handful of small structures and reports what went through two instrumented library seams
+(`string.Template`, `fractions.Fraction.limit_denominator`). From these observations:
 
   * how `SymmetryElement.to_cif` turns a translation into text
-      mode 0  `self._replace_float_values(self.to_shelxl()).lower()` and the ordered replacement list
-              `val = val.replace(a, b)` of `_replace_float_values`                      -> `replList`
-      mode 1  the translation is formatted through `Fraction(..).limit_denominator(N)`  -> `fracLimit`
-      mode 2  neither shape recognised (lost)
-  * the CIF template: every `${placeholder}` (`templateTags`) and the `_data_name ${placeholder}` lines
-    (`templatePairs`, with the information whether the value is quoted)
-  * the keys the substitution dictionary of `CifFile._cif_dict` provides (`dictKeys`): string keys stored
-    by subscript assignment or returned in dict literals by `_cif_dict` and the `self._xxx()` helpers it
-    merges with `.update(...)`.
+      mode 1  the translation is printed as `str(Fraction(t).limit_denominator(N))`          -> `fracLimit` = N
+              N is the bound the code PASSED on every call seen (literal, named constant, default argument, computed
+              constant … all the same here), and the hypothesis is then CHECKED: every operator string of the probes
+              (72 operators: twelfths, sums with R/I/F centrings, decimals that are no simple fraction) must denote
+              the operator's matrix rows with exactly `Fraction(t).limit_denominator(N)` as translation.
+      mode 0  (the code before the repair) `_replace_float_values(self.to_shelxl()).lower()` with the ordered chain
+              `val = val.replace(a, b)`                                                        -> `replList`
+              read off the source with `ast` and likewise checked against every observed string.
+      mode 2  neither hypothesis describes the strings observed (lost)
+  * the CIF template: the text the export really hands to `string.Template` (wherever it comes from: the .tmpl
+    file, another path, a module constant), its placeholders found with the class's own pattern (`templateTags`)
+    and the `_data_name <placeholder>` lines (`templatePairs`, with the information whether the value is quoted),
+    found by filling every placeholder with a marker and reading the filled text (`$name` and `${name}` alike).
+  * the keys of the substitution dictionary (`dictKeys`): the keys of the mapping the export really passes to
+    `Template.substitute` (a mapping and/or keyword arguments; sorted, the order of a dict means nothing). All probe structures (with/without ZERR, TEMP, SIZE, residual REMs,
+    title, Q-peaks, anisotropic atoms) must give the same template, placeholders and key set; if they do not, or if the
+    export does not fill exactly one `string.Template`, the tables are reported as lost.
+
+If the probe cannot run at all (package does not import, no structure can be read) everything is lost; the file is
+then written from the old syntactic reading where that still fits, so that the package builds.
 
 Writes lean/ShelxModel/Extracted/C18.lean.
 """
 import ast
+import json
 import re
+import subprocess
+import sys
+from fractions import Fraction
 from pathlib import Path
 
 import extract
 
+HERE = Path(__file__).resolve().parent
 DSRMATH = 'shelxfile/misc/dsrmath.py'
 CIFWRITE = 'shelxfile/cif/cif_write.py'
 TEMPLATE = 'shelxfile/cif/cif_template.tmpl'
+
+MIN_OPS = 40          # operators with a non-zero translation the probe must have seen before anything is concluded
 
 
 def chars(s: str) -> str:
@@ -35,85 +56,206 @@ def chars(s: str) -> str:
     return '[' + ', '.join(one(c) for c in s) + ']'
 
 
-def _methods(cls):
-    return {n.name: n for n in cls.body if isinstance(n, ast.FunctionDef)}
+# ------------------------------------------------------------------------------------------------------------
+# the probe
+
+def run_probe(repo: Path) -> dict:
+    try:
+        p = subprocess.run([sys.executable, str(HERE / 'probe_c18.py'), '--repo', str(repo)],
+                           stdout=subprocess.PIPE, stderr=subprocess.PIPE, text=True, timeout=120,
+                           env={'PATH': '/usr/bin:/bin', 'PYTHONDONTWRITEBYTECODE': '1', 'PYTHONHASHSEED': '0'})
+    except (OSError, subprocess.TimeoutExpired) as e:
+        return dict(error=f'probe_c18.py did not run: {e!r}', structures={}, ops=[])
+    if p.returncode != 0:
+        return dict(error=f'probe_c18.py failed: {p.stderr[-300:]}', structures={}, ops=[])
+    try:
+        return json.loads(p.stdout[p.stdout.index('{'):])
+    except ValueError:
+        return dict(error=f'probe_c18.py printed no result: {p.stdout[-200:]} {p.stderr[-200:]}', structures={}, ops=[])
 
 
-def _self_calls(fn):
-    """names of methods called as self.<name>(...) inside fn"""
-    out = []
-    for n in ast.walk(fn):
-        if isinstance(n, ast.Call) and isinstance(n.func, ast.Attribute) and isinstance(n.func.value, ast.Name) \
-                and n.func.value.id == 'self':
-            out.append(n.func.attr)
+# ------------------------------------------------------------------------------------------------------------
+# operators
+
+_NUM = re.compile(r'^(\d+/\d+|\d+\.?\d*|\.\d+)$')
+
+
+def denote_row(s: str):
+    """one component of a CIF xyz string -> (cx, cy, cz, translation as Fraction) or None; blanks and case ignored,
+    a sum of signed terms each of which is x, y, z or an unsigned number n, n/d, n.ddd"""
+    s = s.replace(' ', '').lower()
+    if not s:
+        return None
+    terms = re.findall(r'([+-]?)([^+-]+)', s)
+    if ''.join(a + b for a, b in terms) != s:
+        return None
+    c = dict(x=0, y=0, z=0)
+    t = Fraction(0)
+    for sign, body in terms:
+        sg = -1 if sign == '-' else 1
+        if body in c:
+            c[body] += sg
+        elif _NUM.match(body):
+            try:
+                t += sg * Fraction(body)
+            except (ValueError, ZeroDivisionError):
+                return None
+        else:
+            return None
+    return c['x'], c['y'], c['z'], t
+
+
+def denote_op(text: str):
+    parts = text.split(',')
+    if len(parts) != 3:
+        return None
+    rows = [denote_row(p) for p in parts]
+    return None if any(r is None for r in rows) else rows
+
+
+def _num(text: str):
+    """repr() of an int or float of the probe -> the number"""
+    return float(text) if any(ch in text for ch in '.enai') else int(text)
+
+
+def _terms(row):
+    out = ''
+    for m, axis in zip(row, 'XYZ'):
+        out += ('-' + axis) if m < 0 else ('+' + axis) if m else ''
     return out
 
 
-def _self_refs(fn):
-    """names used as self.<name> (called or passed around) inside fn"""
-    return [n.attr for n in ast.walk(fn) if isinstance(n, ast.Attribute) and isinstance(n.value, ast.Name) and n.value.id == 'self']
+def _signs(row):
+    return tuple(-1 if m < 0 else 1 if m else 0 for m in row)
 
 
-def op_mode(repo: Path):
-    """-> (mode, limit, replacement list, lost-message or None)"""
-    tree = extract.parse(repo, DSRMATH)
+def legacy_repl(repo: Path):
+    """the replacement chain of the original `_replace_float_values` (syntactic; only used as a HYPOTHESIS that is
+    then checked against the observed strings) -> list of (old, new) or None"""
+    try:
+        tree = extract.parse(repo, DSRMATH)
+    except (OSError, SyntaxError):
+        return None
     cls = extract.find(tree, 'SymmetryElement')
-    if cls is None:
-        return 2, 0, [], 'class SymmetryElement not found in dsrmath.py'
-    ms = _methods(cls)
-    to_cif = ms.get('to_cif')
-    if to_cif is None:
-        return 2, 0, [], 'SymmetryElement.to_cif not found'
-    # everything reachable from to_cif through self.<method> references (two levels are enough)
-    reach = [to_cif]
-    seen = {'to_cif'}
-    frontier = [to_cif]
-    for _ in range(3):
-        nxt = []
-        for f in frontier:
-            for name in _self_refs(f):
-                if name in ms and name not in seen:
-                    seen.add(name)
-                    nxt.append(ms[name])
-        reach += nxt
-        frontier = nxt
-    # mode 1: a limit_denominator(N) call on the way
-    for f in reach:
-        for n in ast.walk(f):
-            if isinstance(n, ast.Call) and isinstance(n.func, ast.Attribute) and n.func.attr == 'limit_denominator':
-                args = list(n.args) + [k.value for k in n.keywords]
-                if len(args) == 1 and isinstance(args[0], ast.Constant) and isinstance(args[0].value, int):
-                    return 1, args[0].value, [], None
-                if not args:
-                    return 1, 1000000, [], None      # CPython's default
-                if len(args) == 1 and isinstance(args[0], (ast.Name, ast.Attribute)):
-                    # a named constant: NAME = <int> at module or class level
-                    name = args[0].id if isinstance(args[0], ast.Name) else args[0].attr
-                    for a in ast.walk(tree):
-                        if isinstance(a, ast.Assign) and len(a.targets) == 1 and isinstance(a.targets[0], ast.Name) \
-                                and a.targets[0].id == name and isinstance(a.value, ast.Constant) and isinstance(a.value.value, int):
-                            return 1, a.value.value, [], None
-                return 2, 0, [], 'limit_denominator called with a bound that is no integer constant'
-    # mode 0: chain of val = val.replace('a', 'b')
-    if '_replace_float_values' in seen:
-        fn = ms['_replace_float_values']
-        repl = []
-        for st in fn.body:
-            if isinstance(st, ast.Expr) and isinstance(st.value, ast.Constant):
-                continue  # docstring
-            if isinstance(st, ast.Return):
-                continue
-            ok = (isinstance(st, (ast.Assign, ast.AugAssign)) and isinstance(st.value, ast.Call)
-                  and isinstance(st.value.func, ast.Attribute) and st.value.func.attr == 'replace'
-                  and len(st.value.args) == 2 and all(isinstance(a, ast.Constant) and isinstance(a.value, str) for a in st.value.args))
-            if not ok:
-                return 2, 0, [], f'_replace_float_values: statement not of the form val = val.replace(a, b): {ast.unparse(st)[:60]}'
-            repl.append((st.value.args[0].value, st.value.args[1].value))
-        return 0, 0, repl, None
-    return 2, 0, [], 'SymmetryElement.to_cif: neither text replacement nor limit_denominator recognised'
+    fn = extract.find(cls, '_replace_float_values') if cls is not None else None
+    if fn is None:
+        return None
+    repl = []
+    for st in fn.body:
+        if isinstance(st, ast.Expr) and isinstance(st.value, ast.Constant):
+            continue  # docstring
+        if isinstance(st, ast.Return):
+            continue
+        ok = (isinstance(st, (ast.Assign, ast.AugAssign)) and isinstance(st.value, ast.Call)
+              and isinstance(st.value.func, ast.Attribute) and st.value.func.attr == 'replace'
+              and len(st.value.args) == 2 and all(isinstance(a, ast.Constant) and isinstance(a.value, str) for a in st.value.args))
+        if not ok:
+            return None
+        repl.append((st.value.args[0].value, st.value.args[1].value))
+    return repl
 
 
-def template_tables(repo: Path):
+def read_ops(probe: dict, repo: Path):
+    """-> (mode, limit, replacement list, lost-message or None)"""
+    if probe.get('error'):
+        return 2, 0, [], 'SymmetryElement.to_cif: ' + probe['error']
+    ops = probe.get('ops', [])
+    bad = [o for o in ops if 'error' in o]
+    if bad:
+        return 2, 0, [], f'SymmetryElement.to_cif could not be observed: {bad[0]["error"]} (structure {bad[0].get("structure")})'
+    seen = []
+    for o in ops:
+        trans = [_num(t) for t in o['trans']]
+        seen.append((o['rows'], trans, o['tstr'], o['text'], o['ld']))
+    n_nonzero = sum(1 for _, trans, _, _, _ in seen if any(trans))
+    if n_nonzero < MIN_OPS:
+        return 2, 0, [], f'SymmetryElement.to_cif: only {n_nonzero} operators with a translation could be observed'
+    bounds = []
+    for *_, ld in seen:
+        for call in ld:
+            if call['N'] not in bounds:
+                bounds.append(call['N'])
+    if len(bounds) > 1:
+        return 2, 0, [], f'SymmetryElement.to_cif: limit_denominator is called with different bounds {bounds[:4]}'
+    if len(bounds) == 1:
+        N = bounds[0]
+        if not isinstance(N, int) or N < 1:
+            return 2, 0, [], f'SymmetryElement.to_cif: limit_denominator called with the bound {N!r}, no positive integer'
+        # the hypothesis "str(Fraction(t).limit_denominator(N))" against every string observed
+        for rows, trans, _, text, ld in seen:
+            want = [_signs(r) + ((Fraction(t).limit_denominator(N) if t else Fraction(0)),) for r, t in zip(rows, trans)]
+            got = denote_op(text)
+            if got is None or [tuple(g) for g in got] != want:
+                return 2, 0, [], (f'SymmetryElement.to_cif calls limit_denominator({N}) but {text!r} for translations {trans} is not '
+                                  f'the operator with Fraction(t).limit_denominator({N})')
+        return 1, N, [], None
+    # no call of Fraction.limit_denominator: the text replacement of the original code?
+    repl = legacy_repl(repo)
+    if repl is not None and all(a for a, _ in repl):
+        for rows, trans, tstr, text, _ in seen:
+            parts = []
+            for r, t, ts in zip(rows, trans, tstr):
+                s = (ts if t else '') + _terms(r)
+                for a, b in repl:
+                    s = s.replace(a, b)
+                parts.append(s.lower())
+            want = ', '.join(parts)
+            if text != want and (denote_op(text) is None or denote_op(text) != denote_op(want)):
+                break
+        else:
+            return 0, 0, repl, None
+    return 2, 0, [], 'SymmetryElement.to_cif: neither text replacement nor Fraction.limit_denominator describes the strings it writes'
+
+
+# ------------------------------------------------------------------------------------------------------------
+# template and dictionary
+
+_PAIR = re.compile(r"^\s*(_\S+)\s+(['\"]?)\x00(\w+)\x00(['\"]?)\s*$")
+
+
+def read_template(probe: dict):
+    """-> (tags, pairs, keys, list of lost-messages); tags/pairs/keys None when nothing could be observed"""
+    if probe.get('error'):
+        return None, None, None, ['CIF template/dictionary: ' + probe['error']]
+    recs = []
+    for name, st in probe.get('structures', {}).items():
+        if 'error' in st:
+            continue        # this structure could not be read / observed; the others decide
+        subs = st.get('subs', [])
+        if not subs and 'raise' in st:
+            continue        # the export raised before it filled the template: seen by the check itself, not a table matter
+        if len(subs) != 1:
+            return None, None, None, [f'Shelxfile.to_cif fills {len(subs)} string.Template objects for structure {name!r} (expected one)']
+        recs.append((name, subs[0]))
+    if not recs:
+        why = [f'{n}: {s.get("error") or s.get("raise")}' for n, s in probe.get('structures', {}).items()]
+        return None, None, None, ['Shelxfile.to_cif could not be observed on any probe structure: ' + '; '.join(why)[:300]]
+    name0, r0 = recs[0]
+    msgs = []
+    for name, r in recs:
+        if not r['str_keys']:
+            return None, None, None, [f'the substitution dictionary has keys that are no strings ({name})']
+        if r['invalid']:
+            msgs.append(f'the CIF template has {r["invalid"]} invalid placeholder(s)')
+            break
+        if r['text'] != r0['text']:
+            return None, None, None, [f'Shelxfile.to_cif fills different templates for the structures {name0!r} and {name!r}']
+        if sorted(r['keys']) != sorted(r0['keys']):
+            diff = sorted(set(r['keys']) ^ set(r0['keys']))
+            return None, None, None, [f'the keys of the substitution dictionary depend on the structure ({name0!r} vs {name!r}): {diff[:6]}']
+    pairs = []
+    for line in r0['filled'].splitlines():
+        m = _PAIR.match(line)
+        if m:
+            pairs.append((m.group(1), m.group(3), bool(m.group(2)) and m.group(2) == m.group(4)))
+    return list(r0['tags']), pairs, sorted(r0['keys']), msgs
+
+
+# ------------------------------------------------------------------------------------------------------------
+# the old syntactic reading: only to write a well-formed file when the probe could not run (the tables are reported as
+# lost in that case whatever this finds)
+
+def static_template(repo: Path):
     text = (repo / TEMPLATE).read_text()
     tags = re.findall(r'\$\{(\w+)\}|\$(\w+)', text)
     tags = [a or b for a, b in tags]
@@ -125,31 +267,23 @@ def template_tables(repo: Path):
     return tags, pairs
 
 
-def dict_keys(repo: Path):
+def static_dict_keys(repo: Path):
     tree = extract.parse(repo, CIFWRITE)
     cls = extract.find(tree, 'CifFile')
     if cls is None:
-        return None
-    ms = _methods(cls)
-    root = ms.get('_cif_dict')
-    if root is None:
-        return None
-    fns = [root] + [ms[n] for n in _self_calls(root) if n in ms]
+        return []
+    ms = {n.name: n for n in cls.body if isinstance(n, ast.FunctionDef)}
     keys = []
-
-    def add(k):
-        if k not in keys:
-            keys.append(k)
-    for f in fns:
+    for f in ms.values():
         for n in ast.walk(f):
             if isinstance(n, ast.Subscript) and isinstance(n.ctx, ast.Store) and isinstance(n.slice, ast.Constant) \
-                    and isinstance(n.slice.value, str):
-                add(n.slice.value)
-            if isinstance(n, ast.Return) and isinstance(n.value, ast.Dict):
-                for k in n.value.keys:
-                    if isinstance(k, ast.Constant) and isinstance(k.value, str):
-                        add(k.value)
-    return keys
+                    and isinstance(n.slice.value, str) and n.slice.value not in keys:
+                keys.append(n.slice.value)
+            if isinstance(n, ast.Dict):
+                for k in n.keys:
+                    if isinstance(k, ast.Constant) and isinstance(k.value, str) and k.value not in keys:
+                        keys.append(k.value)
+    return sorted(keys)
 
 
 def render(mode, limit, repl, tags, pairs, keys) -> str:
@@ -174,24 +308,21 @@ def render(mode, limit, repl, tags, pairs, keys) -> str:
 @extract.extractor
 def c18_tables(repo, out):
     lost = []
-    try:
-        mode, limit, repl, msg = op_mode(repo)
-    except (OSError, SyntaxError) as e:
-        mode, limit, repl, msg = 2, 0, [], f'dsrmath.py unreadable: {e}'
+    probe = run_probe(Path(repo))
+    mode, limit, repl, msg = read_ops(probe, Path(repo))
     if msg:
         lost.append(dict(props=['C18'], what=msg))
-    try:
-        tags, pairs = template_tables(repo)
-    except OSError as e:
-        tags, pairs = [], []
-        lost.append(dict(props=['C18'], what=f'cif_template.tmpl unreadable: {e}'))
-    try:
-        keys = dict_keys(repo)
-    except (OSError, SyntaxError) as e:
-        keys = None
-    if keys is None:
-        keys = []
-        lost.append(dict(props=['C18'], what='CifFile._cif_dict not found / cif_write.py unreadable'))
+    tags, pairs, keys, msgs = read_template(probe)
+    lost += [dict(props=['C18'], what=m) for m in msgs]
+    if tags is None:
+        try:
+            tags, pairs = static_template(Path(repo))
+        except OSError:
+            tags, pairs = [], []
+        try:
+            keys = static_dict_keys(Path(repo))
+        except (OSError, SyntaxError):
+            keys = []
     extract.write_if_changed(Path(out) / 'C18.lean', render(mode, limit, repl, tags, pairs, keys))
     return lost
 
